@@ -7851,13 +7851,19 @@ fn append_segment_record(
         DiskWalRecord::Commit(commit) => (2u8, encode_commit(commit)),
     };
     let digest = disk_record_digest(kind, &payload);
+    #[cfg(feature = "echo_verif")]
+    crate::verif::io_point("seg.append.begin", path);
     file.write_all(WAL_SEGMENT_RECORD_MAGIC)?;
     file.write_all(&[kind])?;
     file.write_all(&len_u64(payload.len()).to_le_bytes())?;
     file.write_all(&payload)?;
     file.write_all(&digest)?;
+    #[cfg(feature = "echo_verif")]
+    crate::verif::io_point("seg.append.written", path);
     if sync {
         file.sync_all()?;
+        #[cfg(feature = "echo_verif")]
+        crate::verif::io_point("seg.append.synced", path);
     }
     Ok(())
 }
@@ -7996,9 +8002,13 @@ fn rewrite_segment_records(
     fs::create_dir_all(segments_dir(root))?;
     for path in segment_paths(root)? {
         fs::remove_file(path)?;
+        #[cfg(feature = "echo_verif")]
+        crate::verif::io_point("rewrite.removed", root);
     }
     let path = segment_path(root, WalSegmentId::from_raw(1));
     File::create(&path)?.sync_all()?;
+    #[cfg(feature = "echo_verif")]
+    crate::verif::io_point("rewrite.created", root);
     for frame in frames {
         append_segment_record(&path, DiskWalRecord::Frame(frame), false)?;
     }
@@ -8006,6 +8016,8 @@ fn rewrite_segment_records(
         append_segment_record(&path, DiskWalRecord::Commit(commit), false)?;
     }
     File::options().append(true).open(&path)?.sync_all()?;
+    #[cfg(feature = "echo_verif")]
+    crate::verif::io_point("rewrite.synced", root);
     sync_directory_store(root)?;
     Ok(())
 }
@@ -8155,7 +8167,11 @@ fn write_manifest_atomic(root: &Path, manifest: &WalManifest) -> Result<(), WalS
         file.write_all(&bytes)?;
         file.sync_all()?;
     }
+    #[cfg(feature = "echo_verif")]
+    crate::verif::io_point("manifest.tmp.synced", root);
     fs::rename(temp, path)?;
+    #[cfg(feature = "echo_verif")]
+    crate::verif::io_point("manifest.renamed", root);
     sync_directory_store(root)
 }
 
@@ -8406,7 +8422,11 @@ fn write_writer_epoch_ledger_atomic(
         file.write_all(&bytes)?;
         file.sync_all()?;
     }
+    #[cfg(feature = "echo_verif")]
+    crate::verif::io_point("ledger.tmp.synced", root);
     fs::rename(temp, path)?;
+    #[cfg(feature = "echo_verif")]
+    crate::verif::io_point("ledger.renamed", root);
     sync_directory_store(root)
 }
 
